@@ -223,17 +223,113 @@ impl Sweep for Replies {
     }
 }
 
+/// INPUT targets whose subscript *expression* can fail for a value taken from an
+/// earlier field of the same reply. Whether that failure is a refused reply or
+/// a run-time error the manual does not say, so nothing is compared with the
+/// reference here; whichever it is: never INTERNAL ERROR, a REDO FROM START is
+/// followed at once by the same prompt again, and with good replies at hand
+/// the program either completes or ends in an error of line 20.
+struct FailingSubscript;
+
+fn failing_subscript_forms() -> Vec<(&'static str, Vec<&'static str>, &'static str)> {
+    vec![
+        ("INPUT I,D(E(I))", vec!["12,5", "-1,5", "11,5", "40000,5", "12,x", "12", "12,5,6"], "2,7"),
+        ("INPUT \"p\";I,D(10\\I)", vec!["0,5", "0,x", "0"], "2,7"),
+        ("INPUT A$,D(ASC(A$)-64)", vec![",5", "\"\",5", "z,5"], "A,7"),
+        ("INPUT I,A$,D(E(I))", vec!["12,a,5", "12,a,x", "12,\"a,b\",5"], "2,ok,7"),
+        ("INPUT I,D(E(I)),J", vec!["12,5,6", "12,5,x"], "2,7,8"),
+        ("INPUT I,D(1,E(I))", vec!["12,5", "2,5"], "2,7"),
+    ]
+}
+
+impl Sweep for FailingSubscript {
+    fn name(&self) -> String {
+        "failing-subscript-expression".into()
+    }
+    fn shards(&self) -> usize {
+        failing_subscript_forms().len()
+    }
+    fn run_shard(&self, shard: usize, ctx: &mut Ctx) {
+        use crate::driver::Ev;
+        let (stmt, bads, good) = failing_subscript_forms()[shard].clone();
+        for wrap in 0..3 {
+            let lines: Vec<String> = match wrap {
+                0 => vec![format!("20 {}", stmt), "30 PRINT \"done\"".into()],
+                1 => vec!["10 FOR K=1 TO 2".into(), format!("20 {}", stmt), "30 NEXT:PRINT \"done\"".into()],
+                _ => vec!["10 FOR K=1 TO 2:GOSUB 20:NEXT:PRINT \"done\":END".into(), format!("20 {}", stmt), "30 RETURN".into()],
+            };
+            for bad in &bads {
+                for twice in [false, true] {
+                    let mut replies: Vec<String> = vec![bad.to_string()];
+                    if twice {
+                        replies.push(bad.to_string());
+                    }
+                    replies.extend([good.to_string(), good.to_string(), good.to_string()]);
+                    let desc = format!("{} ; replies {:?}", lines.join(" / "), replies);
+                    if !ctx.begin(&desc) {
+                        continue;
+                    }
+                    let r = guard(|| {
+                        let mut s = Session::new();
+                        for l in &lines {
+                            s.enter(l);
+                        }
+                        s.take();
+                        s.replies = replies.iter().cloned().collect();
+                        s.enter("RUN");
+                        s.take()
+                    });
+                    match r {
+                        Err(pn) => ctx.violation("INPUT/panic", pn),
+                        Ok(ev) => {
+                            let text = crate::driver::render_codes(&ev);
+                            ctx.nontrivial(hash64(&text));
+                            let mut last_prompt: Option<&Ev> = None;
+                            let mut ended_in_error = false;
+                            for (i, e) in ev.iter().enumerate() {
+                                match e {
+                                    Ev::Prompt(..) => last_prompt = Some(e),
+                                    Ev::Err(v) => {
+                                        if v.iter().any(|x| x.code.contains("INTERNAL")) {
+                                            ctx.violation("INPUT/internal-error", format!("{} : {:?}", desc, text));
+                                        }
+                                        if v.iter().any(|x| x.code == "REDO FROM START") {
+                                            let next = ev[i + 1..].iter().find(|n| !matches!(n, Ev::Out(t) if t.trim().is_empty()));
+                                            if last_prompt.is_none() || next != last_prompt {
+                                                ctx.violation("INPUT/redo-without-asking-again", format!("{} : {:?}", desc, text));
+                                            }
+                                        } else if v.iter().any(|x| x.line != Some(20)) {
+                                            ctx.violation("INPUT/error-outside-the-statement", format!("{} : {:?}", desc, text));
+                                        } else {
+                                            ended_in_error = true;
+                                        }
+                                    }
+                                    _ => {}
+                                }
+                            }
+                            if !ended_in_error && !text.contains("done") {
+                                ctx.violation("INPUT/program-does-not-complete", format!("{} : {:?}", desc, text));
+                            }
+                        }
+                    }
+                }
+            }
+        }
+        ctx.sample();
+    }
+}
+
 impl Check for C17 {
     fn id(&self) -> &'static str {
         "C17"
     }
     fn sweeps(&self, tier: Tier) -> Vec<Box<dyn Sweep>> {
-        vec![Box::new(Replies { n: tier.pick(4, 5) })]
+        vec![Box::new(Replies { n: tier.pick(4, 5) }), Box::new(FailingSubscript)]
     }
     fn meta(&self, tier: Tier) -> Meta {
         Meta {
             bound: format!(
-                "25 INPUT statements (no prompt / prompt / leading comma x variable lists A | A% | A# | A$ | A,B$ | A$,B | A%,A$,A# | I,D(I), plus a leading-comma-with-prompt form) x every reply of length <={} over {{1 9 - + . E D & H \" , blank x é}}, plus 41 hand-picked replies (quoted commas, blanks, suffixes, radix forms, NAN/inf, out-of-range numbers) and over-long replies (300, 1025, 1201 bytes); each inside FOR K=1 TO 2 .. NEXT with the values of all targets printed after the statement; a rejected reply is followed by a known-good one",
+                "25 INPUT statements (no prompt / prompt / leading comma x variable lists A | A% | A# | A$ | A,B$ | A$,B | A%,A$,A# | I,D(I), plus a leading-comma-with-prompt form) x every reply of length <={} over {{1 9 - + . E D & H \" , blank x é}}, plus 41 hand-picked replies (quoted commas, blanks, suffixes, radix forms, NAN/inf, out-of-range numbers) and over-long replies (300, 1025, 1201 bytes); each inside FOR K=1 TO 2 .. NEXT with the values of all targets printed after the statement; a rejected reply is followed by a known-good one; 6 INPUT statements whose array target's subscript expression fails for an earlier field of the reply (nested array, division, ASC) x 20 such replies x given once or twice x 3 program shapes, judged without the reference: no INTERNAL ERROR, REDO FROM START is followed by the same prompt, the program completes or ends with an error of that line",
                 tier.pick(4, 5)
             ),
             rule: "a case is (INPUT statement, reply script); compared: prompts with capitalisation flag, REDO FROM START events, printed values of all variables, loop completion; distinct_nontrivial = distinct expected transcripts".into(),
